@@ -60,6 +60,21 @@ def r_sweep_range(F, V):
 
 # --------------------------------------------------------------------- R-PROBE-STEP
 
+def _field_of(body, o):
+    """(field name, (block, stmt index) of the load) if the operand is a field of a place, directly or through one temporary"""
+    if o["k"] not in ("copy", "move"):
+        return None, None
+    lf = last_field(o["p"])
+    if lf:
+        return lf["name"], None
+    d = body.single_def(o["p"]["l"])
+    if d and d[0] == "stmt" and d[3]["rv"]["k"] == "use" and d[3]["rv"]["op"]["k"] in ("copy", "move"):
+        lf = last_field(d[3]["rv"]["op"]["p"])
+        if lf:
+            return lf["name"], (d[1], d[2])
+    return None, None
+
+
 def r_probe_step(F, V):
     """triangular probing: the stride is increased *before* it is added to the position (so consecutive probes are
     distinct groups and each group is visited once per cycle), and the position is re-masked afterwards."""
@@ -78,7 +93,7 @@ def r_probe_step(F, V):
             stride_stores.append((i, k, s))
         if s["rv"]["k"] == "binop" and s["rv"]["op"].replace("WithOverflow", "").replace("Unchecked", "") == "Add":
             ops = [s["rv"]["a"], s["rv"]["b"]]
-            flds = [(last_field(o["p"]) or {}).get("name") if o["k"] in ("copy", "move") else None for o in ops]
+            flds = [_field_of(b, o)[0] for o in ops]
             if "pos" in flds:
                 pos_adds.append((i, k, s, ops[1 - flds.index("pos")]))
     key = "raw::ProbeSeq::move_next|stride-then-pos"
@@ -89,13 +104,9 @@ def r_probe_step(F, V):
     pi, pk, ps, other = pos_adds[0]
     # where is the stride that is added to pos loaded?
     ld = None
-    if other["k"] in ("copy", "move"):
-        if (last_field(other["p"]) or {}).get("name") == "stride":
-            ld = (pi, pk)
-        else:
-            d = b.single_def(other["p"]["l"])
-            if d and d[0] == "stmt":
-                ld = (d[1], d[2])
+    fname, at = _field_of(b, other)
+    if fname == "stride":
+        ld = at if at is not None else (pi, pk)
     problems = []
     if ld is None:
         problems.append("the value added to `pos` is not the stride")
